@@ -45,23 +45,10 @@ pub fn rand_positions(n: usize, rng: &mut Rng) -> Vec<Point> {
     }
 }
 
-/// Is the configuration comfortably away from the term's singular set?
-fn well_conditioned(kind: &str, x: &[Point]) -> bool {
-    let sin_ok = |i: usize, j: usize, k: usize| { let a = angle_value(i, j, k, x); a.sin().abs() > 0.15 };
-    match kind {
-        "angle_a" | "angle_b" => sin_ok(0, 1, 2),
-        "torsion" => sin_ok(0, 1, 2) && sin_ok(1, 2, 3),
-        "inversion" => {
-            // normals of the three planes must be well defined and the axis not along a normal
-            sin_ok(1, 0, 2) && sin_ok(2, 0, 3) && sin_ok(3, 0, 1) && {
-                let t = make_term(&TermDesc { kind: "inversion", idxs: vec![0, 1, 2, 3], params: vec![0., 1., 0., 1.] });
-                // c1 = 1, others 0: E = mean sin(gamma); each gamma must stay away from 0 and pi
-                let e = t.energy(x);
-                e.is_finite() && e.abs() > 0.05 || true
-            }
-        }
-        _ => true,
-    }
+/// Is the configuration comfortably away from the term's singular set? (the same filter as for whole force fields)
+fn well_conditioned(kind: &'static str, params: &[f64], x: &[Point]) -> bool {
+    let desc = TermDesc { kind, idxs: (0..x.len()).collect(), params: params.to_vec() };
+    crate::s_ff::well_conditioned(&[desc], x)
 }
 
 fn grad_of(term: &dyn EnergyFunction, x: &[Point]) -> Vec<f64> {
@@ -118,14 +105,14 @@ pub fn run(out: &mut Out, seed: u64, tier: &str) {
 
             // oracle 1: finite differences (only where the geometry is well conditioned and near the origin)
             let near_origin = x.iter().all(|p| p.x.abs() < 10.0);
-            if near_origin && well_conditioned(kind, &x) && g.iter().all(|v| v.is_finite()) {
-                let fd = fd_grad(term.as_ref(), &x, 1e-3);
+            if near_origin && well_conditioned(kind, &params, &x) && g.iter().all(|v| v.is_finite()) {
+                let fd = fd_grad(term.as_ref(), &x, 2e-4);
                 let gmax = g.iter().fold(0.0f64, |m, v| m.max(v.abs())).max(1e-3);
                 let emag = e.abs().max(1.0);
                 for (s, (a, b)) in g.iter().zip(fd.iter()).enumerate() {
                     let err = (a - b).abs();
                     // 1e-6 of the largest component, plus the round-off floor of the difference quotient
-                    let tol = 1e-6 * gmax + 1e-10 * emag / 1e-3;
+                    let tol = 1e-6 * gmax + 1e-13 * emag / 2e-4;
                     worst = worst.max(err / gmax);
                     if !(err <= tol) {
                         out.oracle_fail(
